@@ -59,6 +59,8 @@ func corpusMain() *MProgram {
 			fld(9, "sb", "optional", tSet(tBase("byte"))),
 			fld(10, "lb", "", tList(tBase("bool"))),
 			fld(11, "ld", "", tList(tBase("double"))),
+			fld(12, "mi", "", tMap(tBase("string"), tBase("i64"))),
+			fld(13, "mb", "optional", tMap(tBase("i16"), tBase("bool"))),
 		}},
 		{Kind: "struct", Name: "Nested", Fields: []MField{
 			fld(1, "in", "", tStruct("Inner")),
